@@ -41,17 +41,131 @@ FINITE_ITERATORS = ("std::ops::Range<", "std::slice::Iter<", "std::iter::Enumera
                     "std::iter::Rev<std::ops::Range<", "std::io::Bytes<")
 
 
+_TERMS = {}
+
+
+def terms_of(b):
+    tm = _TERMS.get(id(b))
+    if tm is None:
+        from engine.flow import Terms
+        tm = Terms(b)
+        _TERMS[id(b)] = tm
+    return tm
+
+
 def site_key(facts, o):
+    """(function, structural term of the obligation): provenance terms, no
+    line numbers and no compiler-generated local numbers."""
+    from engine import flow
     b = facts.by_name.get(o["fn"])
     fn = short(o["fn"])
     if b is None:
         return fn, "%s:%s" % (o["kind"], o["desc"])
     t = b.blocks[o["bb"]].term
+    tm = terms_of(b)
     if t.k == "assert":
-        return fn, assert_term(b, o["bb"])
+        m = t.msg
+        parts = [m["kind"]] + ([m["op"]] if "op" in m else [])
+        ops = [flow.show(tm.of_operand(m[k])) for k in ("a", "b", "len", "index") if k in m]
+        return fn, "%s(%s)" % (":".join(parts), ",".join(ops))
     if t.k == "call":
-        return fn, "%s:%s" % (o["kind"], call_term(b, o["bb"]))
+        nm = short(t.callee.target().name) if t.callee else "indirect"
+        if o["kind"] == "Panic":
+            mac = (t.span.macro or "").replace("Macro(Bang, ", "").strip(')"')
+            return fn, "Panic:%s@%s" % (nm, mac or "explicit")
+        return fn, "%s:%s(%s)" % (o["kind"], nm, ",".join(flow.show(tm.of_operand(a)) for a in t.args[:4]))
     return fn, "%s:%s" % (o["kind"], o["desc"])
+
+
+_SIDE = {}
+
+
+def check_side(facts, sc):
+    """Mechanical side-conditions of justified entries."""
+    key = repr(sorted(sc.items()))
+    if key in _SIDE:
+        return _SIDE[key]
+    from engine import flow
+    okk = True
+    kind = sc["kind"]
+    if kind == "writers":
+        seen = 0
+        for b in facts.bodies:
+            if b.promoted is not None:
+                continue
+            fnn = short(b.name)
+            for blk in b.blocks:
+                if blk.cleanup:
+                    continue
+                for s in blk.stmts:
+                    if s.k != "assign":
+                        continue
+                    w = False
+                    for pr in s.place.proj:
+                        if pr[0] == "field" and pr[2] == sc["field"] and pr[4] == sc["adt"]:
+                            w = True
+                    if s.rv.k == "aggregate" and s.rv.agg == "adt" and s.rv.adt_name == sc["adt"]:
+                        w = True
+                    if s.rv.k == "ref" and s.rv.mut:
+                        for pr in s.rv.place.proj:
+                            if pr[0] == "field" and pr[2] == sc["field"] and pr[4] == sc["adt"] and sc["field"] != "buf":
+                                w = True
+                    if w:
+                        seen += 1
+                        if not any(fnn.endswith(x) for x in sc["only_in"]):
+                            okk = False
+        if seen == 0:
+            okk = False
+    elif kind == "validated_store":
+        seen = 0
+        for b in facts.bodies:
+            if b.promoted is not None:
+                continue
+            c = cfg_of(b)
+            vals = [blk.idx for blk in b.calls() if (callee_name(blk.term) or "").endswith(sc["validator"])]
+            for blk in b.blocks:
+                if blk.cleanup:
+                    continue
+                for s in blk.stmts:
+                    if s.k != "assign":
+                        continue
+                    st = False
+                    for pr in s.place.proj:
+                        if pr[0] == "field" and pr[2] == sc["field"] and pr[4] == sc["adt"]:
+                            st = True
+                    if s.rv.k == "aggregate" and s.rv.agg == "adt" and s.rv.adt_name == sc["adt"]:
+                        st = True
+                    if st:
+                        seen += 1
+                        if not any(c.dominates(v, blk.idx) for v in vals):
+                            okk = False
+        if seen == 0:
+            okk = False
+    elif kind == "callers_only":
+        seen = 0
+        for b in facts.bodies:
+            if b.promoted is not None:
+                continue
+            fnn = short(b.name)
+            tm = None
+            for blk in b.calls():
+                if (callee_name(blk.term) or "") != sc["callee"]:
+                    continue
+                if "receiver_field" in sc:
+                    if tm is None:
+                        tm = terms_of(b)
+                    a = tm.of_operand(blk.term.args[0])
+                    if not flow.term_has(a, lambda q: q[0] == "field" and q[1] == sc["receiver_field"]):
+                        continue
+                seen += 1
+                if not any(fnn.endswith(x) for x in sc["only_in"]):
+                    okk = False
+        if seen == 0:
+            okk = False
+    else:
+        okk = False
+    _SIDE[key] = okk
+    return okk
 
 
 def rule_r1(ctx, results, facts):
@@ -84,7 +198,12 @@ def rule_r1(ctx, results, facts):
         j = jmap.get((fn, term))
         if j is not None:
             used.add((fn, term))
-            r.ok("justified", {"fn": fn, "obligation": term, "discharged": "justified: " + j["reason"][:160]})
+            failed = [sc for sc in j.get("side_conditions", []) if not check_side(facts, sc)]
+            if failed:
+                r.bad("%s|%s|side" % (fn, term[:120]), "the argument recorded for %s no longer applies: side-condition %s "
+                      "does not hold" % (term[:120], failed[0]), where, "unverifiable")
+            else:
+                r.ok("justified", {"fn": fn, "obligation": term[:200], "discharged": "justified: " + j["reason"][:160]})
             continue
         if o["verdict"] == "fail":
             r.bad("%s|%s" % (fn, term), "panic-capable site is reachable and its failure condition can hold: %s"
@@ -265,7 +384,13 @@ def rule_r3(ctx, results, facts):
                 continue
         n += 1
         b = facts.by_name.get(fn)
-        term = call_term(b, bb) if b is not None else callee
+        if b is not None:
+            from engine import flow
+            tmx = terms_of(b)
+            tt = b.blocks[bb].term
+            term = "%s(%s)" % (callee, ",".join(flow.show(tmx.of_operand(a)) for a in tt.args[:4]))
+        else:
+            term = callee
         where = "%s (%s)" % (short(fn), b.blocks[bb].term.span if b else "")
         iv = info["ints"][idx] if idx < len(info["ints"]) else None
         if iv is not None and iv[1] <= ALLOC_LIMIT:
